@@ -63,7 +63,7 @@ type scase struct {
 }
 
 func checkSplit(c scase) *mc.Failure {
-	return mc.Guard(func() *mc.Failure {
+	return mc.GuardT("split", c, func() *mc.Failure {
 		in := string(c.In)
 		want, wok, _ := shellh.Split(in)
 		got, ok := shell.Split(in)
@@ -135,7 +135,7 @@ func (c fcase) reader() *fragReader {
 }
 
 func checkFrag(c fcase) *mc.Failure {
-	return mc.Guard(func() *mc.Failure {
+	return mc.GuardT("scanner", c, func() *mc.Failure {
 		in := string(c.In)
 		effective := in
 		if c.FailAt >= 0 && c.FailAt < len(in) {
@@ -245,7 +245,7 @@ type rcase struct {
 }
 
 func checkReset(c rcase) *mc.Failure {
-	return mc.Guard(func() *mc.Failure {
+	return mc.GuardT("reset", c, func() *mc.Failure {
 		old := fcase{In: c.Old, Mask: c.OldMask, FailAt: -1}
 		sc := shell.NewScanner(old.reader())
 		for i := 0; i < c.OldToks && sc.Next(); i++ {
@@ -290,7 +290,7 @@ type pcase struct {
 }
 
 func checkPool(c pcase) *mc.Failure {
-	return mc.Guard(func() *mc.Failure {
+	return mc.GuardT("pool", c, func() *mc.Failure {
 		for i := 0; i < 4; i++ { // several rounds so that the pooled scanner is likely reused
 			shell.Split(string(c.First))
 			want, wok, _ := shellh.Split(string(c.Second))
